@@ -163,7 +163,7 @@ def run(ck):
     kinds = {}
     distinct = set()
     for sg, kind, x0, x, st in gen_cases(ck, sgs.SpaceGroupList, allstrata):
-        if kind == "inside" and ck.tier == "quick" and ck.rng.random() < 0.5:
+        if kind in ("inside", "image") and ck.tier == "quick" and ck.rng.random() < 0.5:
             continue
         ck.coverage["evaluations"] += 3
         kinds[kind] = kinds.get(kind, 0) + 1
